@@ -703,3 +703,213 @@ Proof.
   match goal with H : Some _ = None |- _ => discriminate H end.
 Qed.
 Print Assumptions C02_insert_sections_stale_index_refuted.
+
+(** ==========================================================================================
+    BOTTOM ALIGNMENT: the screen invariant for EITHER alignment, alignment changes included
+    (model/MultiScreenBottom.v, proofs/MultiScreenBottomProofs.v).  The ghost [bghost] is
+    the ghost of C02_screen plus the PADDING block of MultiProgressAlignment::Bottom and the GAPS
+    that suspend leaves under Bottom alignment; it is computed from the op history through the
+    MultiState bookkeeping, never from the terminal, and it follows what the CODE does also in the
+    situation of the open finding D22 (LineAdjust::Keep while padding is on the screen keeps
+    padding rows).  After every history ([bs_run] executes every emitted TermLike call on the
+    terminal model):
+
+        screen = pre ++ rows(bg_log) ++ bg_kept ++ [bg_pad blank rows] ++ bg_live ++ blank rows,
+
+    the next character lands at column 0 of the row below, zombie_lines_count = |bg_kept| and
+    last_line_count = bg_pad + |bg_live|.  [bs_initial]: as ms_initial with ANY alignment.
+    Proviso [FitsAllB]: for a draw that does not shift (Top alignment, or the frame is at least as
+    tall as the region) exactly FitsAll; a shifting draw needs nothing, EXCEPT: an EMPTY frame
+    (clear, suspend, every bar hidden) under Bottom alignment while the region, kept rows
+    included, is as tall as the terminal is OUTSIDE the theorem (fix 881c313 leaves the cursor ON
+    the last padding row there; that draw is covered by C19's per-draw theorem only) - hence
+    `_partial`.  No I/O faults. *)
+From IndModel Require Import MultiScreenBottom.
+From IndProofs Require Import MultiScreenBottomProofs.
+
+Theorem C02_screen_bottom_partial : forall (W H : N), 1 <= W -> 1 <= H ->
+  forall (pre : list (list N)) (s0 : sys) (t0 : term) (h : list (N * op)),
+  bs_initial s0 -> ready (N.to_nat W) (N.to_nat H) pre t0 -> FitsAllB W H s0 h ->
+  let s := fst (fst (bs_run W H (s0, bghost0, t0) h)) in
+  let g := snd (fst (bs_run W H (s0, bghost0, t0) h)) in
+  let t := snd (bs_run W H (s0, bghost0, t0) h) in
+  (exists k, screen (N.to_nat W) t
+             = map (pad (N.to_nat W)) (bs_expected W pre g) ++ repeat (repeat SP (N.to_nat W)) k)
+  /\ next_cell (N.to_nat W) t = (length (bs_expected W pre g), 0%nat)
+  /\ length (bg_kept g) = N.to_nat (ms_zombie_lines (s_mp s))
+  /\ (N.to_nat (bg_pad g) + length (bg_live g))%nat = N.to_nat (target_n (ms_target (s_mp s))).
+Proof. exact c02_screen_bottom. Qed.
+Print Assumptions C02_screen_bottom_partial.
+
+(** ... after EVERY call of the history *)
+Theorem C02_screen_bottom_every_op_partial : forall (W H : N) (pre : list (list N)) (s0 : sys) (t0 : term)
+    (h1 h2 : list (N * op)), 1 <= W -> 1 <= H ->
+  bs_initial s0 -> ready (N.to_nat W) (N.to_nat H) pre t0 -> FitsAllB W H s0 (h1 ++ h2) ->
+  let s := fst (fst (bs_run W H (s0, bghost0, t0) h1)) in
+  let g := snd (fst (bs_run W H (s0, bghost0, t0) h1)) in
+  let t := snd (bs_run W H (s0, bghost0, t0) h1) in
+  (exists k, screen (N.to_nat W) t
+             = map (pad (N.to_nat W)) (bs_expected W pre g) ++ repeat (repeat SP (N.to_nat W)) k)
+  /\ next_cell (N.to_nat W) t = (length (bs_expected W pre g), 0%nat)
+  /\ length (bg_kept g) = N.to_nat (ms_zombie_lines (s_mp s))
+  /\ (N.to_nat (bg_pad g) + length (bg_live g))%nat = N.to_nat (target_n (ms_target (s_mp s))).
+Proof. exact c02_screen_bottom_every_prefix. Qed.
+Print Assumptions C02_screen_bottom_every_op_partial.
+
+(** the kept rows under the D22 exclusion [NoPadReap] (no LineAdjust::Keep(k > 0) - reaping a
+    dropped head bar in MultiState::draw or mark_zombie - while padding rows are on top of the
+    counted region): the log / kept / live components of the Bottom ghost ARE the Top-alignment
+    ghost of C02_screen ([ms_run]; its kept rows are by construction rows of painted Bar lines
+    only), both runs produce the same terminal, and the screen is
+    pre ++ rows(log) ++ kept ++ padding ++ live with that ghost's kept and live rows *)
+Theorem C02_kept_bottom_partial : forall (W H : N) (pre : list (list N)) (s0 : sys) (t0 : term)
+    (h : list (N * op)), 1 <= W -> 1 <= H ->
+  bs_initial s0 -> ready (N.to_nat W) (N.to_nat H) pre t0 -> FitsAllB W H s0 h ->
+  NoPadReap W H (s0, bghost0, t0) h ->
+  let gB := snd (fst (bs_run W H (s0, bghost0, t0) h)) in
+  let gT := snd (fst (ms_run W H (s0, mghost0, t0) h)) in
+  let t := snd (bs_run W H (s0, bghost0, t0) h) in
+  bg_top gB = gT
+  /\ t = snd (ms_run W H (s0, mghost0, t0) h)
+  /\ exists k, screen (N.to_nat W) t
+        = map (pad (N.to_nat W))
+              (pre ++ log_rows (N.to_nat W) (bg_log gB) ++ mg_kept gT
+                   ++ repeat [] (N.to_nat (bg_pad gB)) ++ mg_live gT)
+          ++ repeat (repeat SP (N.to_nat W)) k.
+Proof. exact c02_kept_bottom. Qed.
+Print Assumptions C02_kept_bottom_partial.
+
+(* ------------------------------------------------------------------ non-vacuity (Bottom alignment) *)
+(** 3 bars A B C on a 4 x 10 terminal below an earlier shell line "$"; set_alignment(Bottom), add
+    all, tick each *)
+Definition bt_bar (c : N) : bar := new_bar (Some 10) FAndLeave [PLit [c]; PPos] THidden 0.
+Definition bt_s0 : sys :=
+  mksys [bt_bar 65; bt_bar 66; bt_bar 67] (new_ms (TTerm (new_ttarget None 0))) 0.
+Definition bt_t0 : term := run_ops 4 10 term_init [TLine [36]].
+Definition bt_setup : list (N * op) :=
+  [(0, OSetAlign Bottom); (1, OInsert BEnd 0); (2, OInsert BEnd 1); (3, OInsert BEnd 2);
+   (4, OTick 0); (5, OTick 1); (6, OTick 2)].
+(** the witness of fixed defect 951c29f: remove(a); b.finish_and_clear(); c.println("x"); c.tick() *)
+Definition bt_println : list (N * op) :=
+  bt_setup ++ [(7, ORemove 0); (8, OFinish 1 FAndClear); (9, OPrintln 2 [120]); (10, OTick 2)].
+(** the witness of fixed defect 8b11f76: empty frames (the only visible bar finished-and-cleared,
+    clear()) do not make the region drift *)
+Definition bt_empty : list (N * op) :=
+  [(0, OSetAlign Bottom); (1, OInsert BEnd 0); (2, OTick 0); (3, OFinish 0 FAndClear);
+   (4, OInsert BEnd 1); (5, OTick 1); (6, OFinish 1 FAndClear); (7, OMClear);
+   (8, OInsert BEnd 2); (9, OTick 2)].
+(** the witness of fixed defect 96a75c4: suspend under Bottom alignment *)
+Definition bt_suspend : list (N * op) := bt_setup ++ [(7, OMSuspend [[115]]); (8, OTick 2)].
+(** the witness of the OPEN finding D22: b.finish_and_clear() (one padding row on top);
+    a.finish(); drop(a) *)
+Definition bt_d22 : list (N * op) :=
+  bt_setup ++ [(7, OFinish 1 FAndClear); (8, OFinish 0 FAndLeave); (9, ODrop 0)].
+
+Example C02_screen_bottom_hypotheses_satisfiable :
+  bs_initial bt_s0 /\ ready 4 10 [[36]] bt_t0
+  /\ FitsAllB 4 10 bt_s0 bt_println /\ FitsAllB 4 10 bt_s0 bt_empty
+  /\ FitsAllB 4 10 bt_s0 bt_suspend /\ FitsAllB 4 10 bt_s0 (bt_d22 ++ [(10, OTick 2)])
+  /\ hist_ok 4 10 nofaults bt_s0 bt_println /\ hist_ok 4 10 nofaults bt_s0 bt_empty
+  /\ hist_ok 4 10 nofaults bt_s0 bt_suspend /\ hist_ok 4 10 nofaults bt_s0 bt_d22
+  /\ NoPadReap 4 10 (bt_s0, bghost0, bt_t0) bt_println
+  /\ NoPadReap 4 10 (bt_s0, bghost0, bt_t0) bt_suspend.
+Proof.
+  split.
+  - split.
+    + intros b. unfold get_bar, nthN. destruct (N.to_nat b) as [|[|[|[|n]]]]; exact I.
+    + eexists. repeat split. intros i ls Hi. unfold nthN in Hi. cbn in Hi.
+      destruct (N.to_nat i); discriminate Hi.
+  - split; [exact (ready_start 4 10 [[36]] 0 1 ltac:(lia))|].
+    repeat (split; [vm_compute; repeat (split || intro)|]). vm_compute; repeat (split || intro).
+Qed.
+
+(** 951c29f: the printed line "x" stays ABOVE the padding row; 8b11f76: after two empty frames and
+    a clear the new bar is drawn directly below "$" (no drift); 96a75c4: the closure's line "s" is
+    still there after the redraw and the next tick - below the 3 blank rows (a GAP) that clear
+    wrote where the bars were, above the bars *)
+Example C02_screen_bottom_examples :
+  let st1 := bs_run 4 10 (bt_s0, bghost0, bt_t0) bt_println in
+  let st2 := bs_run 4 10 (bt_s0, bghost0, bt_t0) bt_empty in
+  let st3 := bs_run 4 10 (bt_s0, bghost0, bt_t0) bt_suspend in
+  snd (fst st1) = mkbg [LLine [120]] [] 1 [[67;48]]
+  /\ screen 4 (snd st1) = map (pad 4) [[36]; [120]; []; [67;48]]
+  /\ snd (fst st2) = mkbg [] [] 0 [[67;48]]
+  /\ screen 4 (snd st2) = map (pad 4) [[36]; [67;48]; []]
+  /\ snd (fst st3) = mkbg [LGap 3; LLine [115]] [] 0 [[65;48]; [66;48]; [67;48]]
+  /\ screen 4 (snd st3) = map (pad 4) [[36]; []; []; []; [115]; [65;48]; [66;48]; [67;48]].
+Proof. vm_compute. repeat split. Qed.
+
+(** NoPadReap cannot be dropped from C02_kept_bottom_partial: the open finding D22
+    (`bottom-alignment-kept-rows-misplaced`) on the faithful model.  After b.finish_and_clear() the
+    region is [padding; A; C]; a.finish(); drop(a) reaps A at the head with Keep(1): the row that
+    becomes a kept row is the blank PADDING row, not A's final frame "A10" (which is what the
+    Top-alignment ghost keeps); A's row stays in the counted region and the next tick erases it -
+    although no println / clear / suspend / remove intervened.  The screen equation of
+    C02_screen_bottom_partial (whose ghost follows the code) holds throughout. *)
+Theorem C02_kept_bottom_D22_refuted :
+  let stB := bs_run 4 10 (bt_s0, bghost0, bt_t0) bt_d22 in
+  let stT := ms_run 4 10 (bt_s0, mghost0, bt_t0) bt_d22 in
+  let stB' := bs_run 4 10 (bt_s0, bghost0, bt_t0) (bt_d22 ++ [(10, OTick 2)]) in
+  NoPadReap 4 10 (bt_s0, bghost0, bt_t0) (firstn 9 bt_d22)      (* fine until the drop ... *)
+  /\ ~ NoPadReap 4 10 (bt_s0, bghost0, bt_t0) bt_d22             (* ... which reaps under padding *)
+  /\ mg_kept (snd (fst stT)) = [[65;49;48]]                       (* the row that should be kept: "A10" *)
+  /\ snd (fst stB) = mkbg [] [[]] 0 [[65;49;48]; [67;48]]         (* kept: the blank padding row *)
+  /\ bg_top (snd (fst stB)) <> snd (fst stT)
+  /\ screen 4 (snd stB) = map (pad 4) [[36]; []; [65;49;48]; [67;48]]
+  /\ snd (fst stB') = mkbg [] [[]] 1 [[67;48]]
+  /\ screen 4 (snd stB') = map (pad 4) [[36]; []; []; [67;48]].   (* "A10" erased by the tick *)
+Proof.
+  cbn zeta. split; [vm_compute; repeat (split || intro)|].
+  split.
+  - intros F. vm_compute in F.
+    repeat match goal with H : _ /\ _ |- _ => destruct H end.
+    match goal with H : false = true |- _ => discriminate H end.
+  - split; [vm_compute; reflexivity|]. split; [vm_compute; reflexivity|].
+    split; [vm_compute; discriminate|]. split; [vm_compute; reflexivity|].
+    split; vm_compute; reflexivity.
+Qed.
+Print Assumptions C02_kept_bottom_D22_refuted.
+
+(** the either-alignment theorems cover every history the Top-alignment theorems cover: the
+    hypotheses of C02_screen / C03_log (ms_initial, FitsAll - which forbids set_alignment(Bottom))
+    imply those of C02_screen_bottom_partial / C03_log_bottom_partial; the extra proviso of
+    FitsAllB only concerns draws that shift, i.e. Bottom alignment *)
+From IndProofs Require Import MultiScreenBottomTop.
+Theorem C02_screen_bottom_subsumes_top : forall (W H : N) (s0 : sys) (h : list (N * op)),
+  ms_initial s0 -> FitsAll W H s0 h -> bs_initial s0 /\ FitsAllB W H s0 h.
+Proof. exact bottom_subsumes_top. Qed.
+Print Assumptions C02_screen_bottom_subsumes_top.
+
+(** on the Top-alignment example of C02_screen_example_end the either-alignment ghost has no gap
+    and no padding, and the same kept / live rows and screen *)
+Example C02_screen_bottom_top_example :
+  let st := bs_run 6 10 (exm_s0, bghost0, term_init) exm_ops in
+  snd (fst st) = mkbg [LLine [104;105]; LLine [120]; LLine [121]; LGap 0; LLine [119]] [] 0 [[66;48]; [67;51]]
+  /\ screen 6 (snd st) = map (pad 6) [[104;105]; [120]; [121]; [119]; [66;48]; [67;51]]
+  /\ next_cell 6 (snd st) = (6%nat, 0%nat).
+Proof. vm_compute. repeat split. Qed.
+
+(** what `_partial` leaves out, computed on the model (4 x 3 terminal, the three bars fill it):
+    clear() under Bottom alignment pads the whole screen; fix 881c313 writes one padding line less
+    and leaves the cursor ON the last padding row (not below it), so the cursor clause of
+    C02_screen_bottom_partial does not hold in that state (next row 2, not 3), and a suspend in
+    that state leaves a gap of H - 1 = 2 rows where the ghost says 3.  This is the ghost / the
+    invariant not covering that state (the code is fine: TermBottomProofs.draw_to_term_spec_bottom,
+    case n = H); FitsAllB excludes exactly the call that enters it. *)
+Example C02_screen_bottom_outside_proviso :
+  let h := bt_setup ++ [(7, OMClear)] in
+  let st := bs_run 4 3 (bt_s0, bghost0, term_init) h in
+  let st' := bs_run 4 3 (bt_s0, bghost0, term_init) (h ++ [(8, OMSuspend [[115]])]) in
+  FitsAllB 4 3 bt_s0 bt_setup /\ ~ FitsAllB 4 3 bt_s0 h
+  /\ snd (fst st) = mkbg [] [] 3 []
+  /\ screen 4 (snd st) = map (pad 4) [[]; []; []]
+  /\ next_cell 4 (snd st) = (2%nat, 0%nat)
+  /\ length (bs_expected 4 [] (snd (fst st'))) = 7%nat
+  /\ screen 4 (snd st') = map (pad 4) [[]; []; [115]; [65;48]; [66;48]; [67;48]].
+Proof.
+  cbn zeta. split; [vm_compute; repeat (split || intro)|]. split.
+  - intros F. vm_compute in F.
+    repeat match goal with H : _ /\ _ |- _ => destruct H end.
+    match goal with H : false = true |- _ => discriminate H end.
+  - vm_compute. repeat split.
+Qed.
